@@ -138,7 +138,7 @@ impl EventGen for Container {
                 // Special case <svg> elements with an xmlns attribute - passed through
                 // transparently, with no bbox calculation.
                 if new_el.name == "svg" && new_el.get_attr("xmlns").is_some() {
-                    return Ok((self.0.all_events(context).into(), None));
+                    return Ok((self.0.all_events(context).into_verbatim_output(), None));
                 }
                 new_el.eval_attributes(context)?;
                 if context.config.add_metadata {
@@ -565,7 +565,7 @@ pub fn process_events(
             // if this is the outermost SVG element, we mark the entire input as a 'real' SVG document
             context.real_svg = true;
         }
-        return Ok((input.into(), None));
+        return Ok((input.into_verbatim_output(), None));
     }
     let mut output = OutputList::new();
     let mut idx_output = BTreeMap::<OrderIndex, OutputList>::new();
